@@ -7,7 +7,8 @@ import decsuite as ds
 import gen
 
 THEOREMS = ["C11.c11_obj_to_events", "C11.c11_fields", "C11.c11_arms", "C11.c11_tables", "C11.c11_roundtrip", "C11.fieldWith_o2e", "decode_ok",
-            "C11.c11_e2o_tables", "C11.c11_e2o_enckey", "C11.c11_events_to_obj", "C11.c11_decoder_object_is_rebuilt", "spec_builds",
+            "C11.c11_e2o_tables", "C11.c11_e2o_enckey", "C11.c11_events_to_obj", "C11.c11_decoder_object_is_rebuilt", "C11.c11_e2o_msg_tables",
+            "C11.c11_type_rebuilt", "C11.c11_command_rebuilt", "C11.c11_response_rebuilt", "cmd_events_to_obj", "rsp_events_to_obj", "area_builds", "spec_builds",
             "fields_builds", "arm_builds", "descend_key", "descend_idx", "spec_under"]
 
 
@@ -88,5 +89,5 @@ def run(ctx, replay_case):
 
 PROP = {"targets": ["TpmProofs.Props.C11E"], "module": "TpmProofs.Props.C11E", "theorems": THEOREMS, "run": run,
         "assumptions": ["events_to_obj is modelled (`e2oTop`) and tied by the E2O correspondence; 'decoder object == object rebuilt from the events' is a "
-                        "theorem for structure types (every layout of /repo, every accepted input); for commands and responses it is monitored on the real code",
+                        "theorem for structure types, commands and responses (every layout of /repo, every command code and encryption flag, every accepted input)",
                         "obj_to_events is modelled, proved for every layout and conforming value, and tied by correspondence"]}
